@@ -68,6 +68,19 @@ def o_rescale(case):
         out3 = get_source_area(ff[perm].reshape(-1), gg[perm].reshape(-1))
         if not np.allclose(out3, oo[perm], rtol=0, atol=tol):
             return fail("C20/permutation", "a common permutation of the cells does not permute the result", None, "equal", "differs", tol)
+    # the same array OBJECTS again after their contents changed in place: the result belongs to the current values
+    fb, gb = np.array(f, dtype=float), np.array(g, dtype=float)
+    get_source_area(fb, gb)
+    for step in ("f", "g", "both"):
+        if step in ("f", "both"):
+            fb[...] = np.roll(fb.ravel(), 3).reshape(fb.shape) * 1.5
+        if step in ("g", "both"):
+            gb[...] = -gb + 0.25 * np.roll(gb.ravel(), 1).reshape(gb.shape)
+        a_ = np.asarray(get_source_area(fb, gb), dtype=float)
+        b_ = np.asarray(get_source_area(fb.copy(), gb.copy()), dtype=float)
+        if not np.array_equal(a_, b_):
+            return fail("C20/inplace", "rescaling arrays whose contents were changed in place (%s) is not the rescaling of their current values" % step, None,
+                        "equal", float(np.max(np.abs(a_ - b_))), 0)
     return None
 
 
@@ -121,6 +134,23 @@ def o_percentile(case):
     l3, a3 = extract_percentile_contour(lam * f, grid, pct=case["ps"][0], level=lvl)
     if not (abs(l3 - lam * res[0][0]) <= 1e-12 * max(1.0, abs(l3)) and abs(a3 - res[0][1]) <= 1e-9 * cell):
         return fail("C20/percentile-scale", "scaling f does not scale the level / keep the area", None, [lam * res[0][0], res[0][1]], [l3, a3], 1e-12)
+    # the SAME array object evaluated again after its contents changed in place (a running-mean buffer, `f *= c`, a masked update): the result
+    # is that of the values it holds NOW - compared with a fresh copy of those values
+    buf = np.array(f, dtype=float)
+    extract_percentile_contour(buf, grid, pct=case["ps"][0], level=lvl)
+    for step in ("scale", "refill", "mask"):
+        if step == "scale":
+            buf *= lam
+        elif step == "refill":
+            buf[...] = np.roll(buf, 5, axis=-1)[..., ::-1, :] ** 2
+        else:
+            buf[..., ::2, 1::3] = 0.0
+        for p in case["ps"][:2]:
+            a_ = extract_percentile_contour(buf, grid, pct=p, level=lvl)
+            b_ = extract_percentile_contour(buf.copy(), grid, pct=p, level=lvl)
+            if not (a_[0] == b_[0] and a_[1] == b_[1]):
+                return fail("C20/percentile-inplace", "the contour of an array whose contents were changed in place (%s) is not the contour of its current values (p=%g)" % (step, p),
+                            None, [float(b_[0]), float(b_[1])], [float(a_[0]), float(a_[1])], 0)
     return None
 
 
